@@ -32,4 +32,7 @@ CHECKS = {
  'C20': dict(level='exploration', technique='property-based testing: totality with crash bucketing, well-formedness, determinism, provenance differential (fresh / diff_cache / pickle), W292 exactness',
    text='PEP 8 checker run on generated trees x 7 configurations; crashes bucketed by call site against known_findings.json, issue well-formedness, stability across calls and provenances, exact W292.',
    note='Nine crash call sites are carried as listed findings (KNOWN-FINDING lines); anything else is a violation.'),
+ 'C04': dict(level='exploration', technique='model-based (stateful) property testing: generated edit histories, incremental vs fresh parse differential after every step',
+   text='Edit histories (2-11 texts, 18 kinds of edit incl. undo, BOM/newline-style toggles, flow/decorator lines) are replayed through diff_cache under a private path; after every step the incremental tree is compared with a fresh parse by an own comparator, plus parent links, code and the used-names index.',
+   note='Copy/re-parse counts come from a counting DiffParser subclass on a private grammar instance; one listed finding (F-C04-2) is signature-matched when its trigger is in the old text.'),
 }
